@@ -252,6 +252,11 @@ def run_sim_case(ctx, i):
     m, k, fam, kind = make_case(rng, big=False)
     if abs(k.sum()) < 0.2:
         k = k + (0.6 - k.sum()) / k.size
+    if i % 5 == 2:
+        # a PSF that is nearly but not exactly normalised (normalised in single precision, cut from a larger normalised stamp, rounded
+        # to six decimals): the simulator and the dataset still use the same, exactly normalised, kernel
+        k = k / k.sum() * (1.0 + float(rng.choice([1e-6, -1e-7, 3e-8, -2e-6])))
+        kind = kind + "+nearly_normalised"
     ps, origin = gen.mild_scales_origin(rng)
     psf = aa.Kernel2D.no_mask(values=k.copy(), pixel_scales=ps)
     truth = rng.random(m.shape) + 0.1
